@@ -74,6 +74,8 @@ type TypeExpr struct {
 
 func (t TypeExpr) String() string {
 	switch t.Kind {
+	case "inst":
+		return t.Name + "[" + t.Elem.String() + "]"
 	case "name":
 		return t.Name
 	case "ptr":
@@ -343,6 +345,13 @@ func (ps *parser) typeExpr() TypeExpr {
 	for ps.isOp(".") && ps.toks[ps.p+1].k == "id" {
 		ps.next()
 		n += "." + ps.ident()
+	}
+	// an instance of a generic type with one type argument: Name[Arg]
+	if ps.isOp("[") {
+		ps.next()
+		a := ps.typeExpr()
+		ps.expect("]")
+		return TypeExpr{Kind: "inst", Name: n, Elem: &a}
 	}
 	return TypeExpr{Kind: "name", Name: n}
 }
